@@ -22,7 +22,7 @@ for f in os.listdir(src):
 head = subprocess.check_output(["git", "-C", "/repo", "rev-parse", "HEAD"], text=True).strip()
 ok = subprocess.run(["git", "-C", "/repo", "apply", "--check", os.path.join(d, "patch.diff")]).returncode == 0
 base = head if ok else subprocess.check_output(["git", "-C", "/repo", "rev-parse", "HEAD~1"], text=True).strip()
-meta = dict(property=prop, origin="independent sub-agent given only the property text and a scratch worktree (seventh batch)",
+meta = dict(property=prop, origin="independent sub-agent given only the property text and a scratch worktree (%s batch)" % ("eighth" if "-r8-" in name else "seventh"),
             base_commit=base, needs=needs,
             confirmed=dict(suite_passes_with_change=True, demo_fails_with_change=True, demo_passes_without_change=True,
                            how="tools/seedtest.py: scratch worktree of /repo HEAD, git apply patch.diff, go test -count=1 ., go test -run TestDemo with and without the patch"),
